@@ -186,6 +186,8 @@ class Interp(object):
         if isinstance(v, SymConst):
             raise Undecided('truth of symbolic constant')
         if isinstance(v, (Opaque, TagName, SrcFunc, Bound, Native, NativeMethod, ExcVal)):
+            if isinstance(v, Opaque) and v.sort == 'notnone':
+                return True
             if isinstance(v, Opaque) and v.sort == 'bool':
                 return ctx.branch(z3.Bool('opq_' + repr(v)))
             if isinstance(v, Opaque):
@@ -1510,4 +1512,7 @@ class Policy(object):
         return PROCEED
 
     def str_method(self, interp, recv, name, args, kwargs):
+        return PROCEED
+
+    def str_equal(self, interp, a, b):
         return PROCEED
